@@ -2,7 +2,8 @@
 from . import core
 
 PROP_FILE = 'Properties/C06.v'
-THEOREMS = ['C06_block_comment_text', 'C06_line_comment_text', 'C06_comment_total', 'C06_markup_comment_in_place']
+THEOREMS = ['C06_block_comment_text', 'C06_line_comment_text', 'C06_comment_total', 'C06_markup_comment_in_place',
+            'C06_flow_keeps_comments_in_place', 'C06_list_keeps_comments_in_place']
 
 
 def run(tier, seed, replay=None):
